@@ -42,6 +42,9 @@ func (c *FnVC) atAssertsIn(b *ssa.BasicBlock, name, tag string, args []string, a
 				continue
 			}
 			c.obligeNamed("at", fmt.Sprintf("at@%s.c%d", tag, j+1), t, c.reach[b], "assertion at call of "+name+": "+exprString(cj), nil)
+			// a proved assertion is a fact for everything after it (as with the implicit
+			// safety obligations): it can serve as a cut / staging lemma
+			c.assume(imp(c.reach[b], t))
 		}
 	}
 }
